@@ -139,8 +139,7 @@ filled, a boolean item would stay boolean: `pySetItem`). -/
 theorem pySetItem_arr_nat {l : List PV} {i : Nat} {k : Int} (hk : l[i]? = some (.int k)) (x : Int) :
     pySetItem (.arr l) (.int i) (.int x) = .ok (.arr (l.set i (.int x))) := by
   have h : i < l.length := (List.getElem?_eq_some_iff.mp hk).1
-  have hg : l.getD i .none = .int k := by rw [List.getD_eq_getElem?_getD, hk]; rfl
-  simp [pySetItem, pySetItemSeq, normIndex_natCast h, hg]
+  simp [pySetItem, pySetItemSeq, normIndex_natCast h, List.getD_eq_getElem?_getD, hk]
 theorem pySetItem_arr_int {l : List PV} {i : Int} {k : Int} (h0 : 0 ≤ i) (hk : l[i.toNat]? = some (.int k))
     (x : Int) :
     pySetItem (.arr l) (.int i) (.int x) = .ok (.arr (l.set i.toNat (.int x))) := by
